@@ -113,9 +113,14 @@ impl<R: Read> ZipStreamReader<R> {
         }
 
         let mut extractor = Extractor(directory.as_ref(), Vec::new());
-        self.visit(&mut extractor)?;
+        let visited = self.visit(&mut extractor);
+        // also after a failure, for the central records seen before it (all files are written
+        // before the first of them)
         #[cfg(unix)]
-        super::apply_unix_modes(extractor.1)?;
+        let applied = super::apply_unix_modes(extractor.1);
+        visited?;
+        #[cfg(unix)]
+        applied?;
         Ok(())
     }
 }
